@@ -66,27 +66,69 @@ func (vc *VC) mapComps(t types.Type) (mh, mv, ml string, mt *types.Map) {
 	return
 }
 
+// Address space. Every object occupies the addresses [ref, ref+size(T)); the
+// sub-object for a struct-typed field embedded by value sits at a fixed offset
+// (like a memory layout), so freshness and distinctness of sub-objects follow
+// from arithmetic. Allocation advances the counter by objStride. Struct-typed
+// slice elements live at negative addresses -objStride*erefid(arr,idx).
+const objStride = 65536
+
+// structSize: number of addresses a value of type t occupies.
+func structSize(t types.Type) int64 {
+	s, ok := t.Underlying().(*types.Struct)
+	if !ok {
+		return 1
+	}
+	n := int64(1)
+	for i := 0; i < s.NumFields(); i++ {
+		if kindOf(s.Field(i).Type()) == KStruct {
+			n += structSize(s.Field(i).Type())
+		}
+	}
+	if n >= objStride {
+		panic(vcErrorf("struct %s too large for the address model", t))
+	}
+	return n
+}
+
+// embOffset: offset of the sub-object of field idx inside struct st.
+func embOffset(st types.Type, idx int) int64 {
+	s := structOf(st)
+	off := int64(1)
+	for i := 0; i < idx; i++ {
+		if kindOf(s.Field(i).Type()) == KStruct {
+			off += structSize(s.Field(i).Type())
+		}
+	}
+	return off
+}
+
 // embRef gives the object ref of a struct-typed field embedded by value.
 func (vc *VC) embRef(st types.Type, idx int, ref string) string {
-	s := structOf(st)
-	name := qsym("emb$" + namedName(st) + "$" + s.Field(idx).Name())
-	inv := qsym("embinv$" + namedName(st) + "$" + s.Field(idx).Name())
-	vc.declFun(name, []string{sortInt}, sortInt)
-	vc.declFun(inv, []string{sortInt}, sortInt)
-	vc.decl("embax:"+name, fmt.Sprintf("(assert (forall ((r Int)) (! (and (= (%s (%s r)) r) (=> (not (= r 0)) (< (%s r) 0))) :pattern ((%s r)))))", inv, name, name, name))
-	return sApp(name, ref)
+	return sAdd(ref, sNum(embOffset(st, idx)))
 }
 
 // elemRef gives the object ref of a struct-typed slice element.
 func (vc *VC) elemRef(et types.Type, arr, idx string) string {
-	name := qsym("eref$" + typeKey(et))
-	vc.declFun(name, []string{sortInt, sortInt}, sortInt)
-	ia := qsym("eref_arr$" + typeKey(et))
-	ii := qsym("eref_idx$" + typeKey(et))
-	vc.declFun(ia, []string{sortInt}, sortInt)
-	vc.declFun(ii, []string{sortInt}, sortInt)
-	vc.decl("erefax:"+name, fmt.Sprintf("(assert (forall ((a Int) (i Int)) (! (and (= (%s (%s a i)) a) (= (%s (%s a i)) i) (< (%s a i) 0)) :pattern ((%s a i)))))", ia, name, ii, name, name, name))
-	return sApp(name, arr, idx)
+	vc.erefDecls()
+	return sApp("eref", arr, idx)
+}
+
+func (vc *VC) erefDecls() {
+	vc.declFun("erefid", []string{sortInt, sortInt}, sortInt)
+	vc.declFun("erefarr", []string{sortInt}, sortInt)
+	vc.declFun("erefidx", []string{sortInt}, sortInt)
+	vc.decl("erefax", fmt.Sprintf("(assert (forall ((a Int) (i Int)) (! (and (= (erefarr (erefid a i)) a) (= (erefidx (erefid a i)) i) (>= (erefid a i) 1)) :pattern ((erefid a i)))))"))
+	vc.decl("erefdef", fmt.Sprintf("(define-fun eref ((a Int) (i Int)) Int (- (* %d (erefid a i))))", objStride))
+	// the element a (possibly interior) negative address belongs to
+	vc.decl("gidef", fmt.Sprintf("(define-fun gid ((r Int)) Int (div (+ (- r) %d) %d))", objStride-1, objStride))
+}
+
+// existedAt: address r belonged to an object that existed when the
+// allocation counter was alloc0.
+func (vc *VC) existedAt(r, alloc0 string) string {
+	vc.erefDecls()
+	return sIte("(>= "+r+" 0)", sLt(r, alloc0), sLt(sApp("erefarr", sApp("gid", r)), alloc0))
 }
 
 func (vc *VC) zero(t types.Type) Val {
@@ -195,7 +237,7 @@ func (vc *VC) alloc(h *Heap) string {
 	r := vc.fresh("new", sortInt)
 	vc.fact(sAnd(sEq(r, cur), sLt("0", r)), "")
 	nx := vc.fresh("$alloc", sortInt)
-	vc.fact(sEq(nx, sAdd(cur, "1")), "")
+	vc.fact(sEq(nx, sAdd(cur, sNum(objStride))), "")
 	h.m[compAlloc] = nx
 	return r
 }
@@ -207,7 +249,18 @@ func (vc *VC) hgetScalar(h *Heap, comp string) string { return vc.hget(h, comp) 
 // reference, which are negative).
 func (vc *VC) knownRef(h *Heap, term string) string {
 	vc.compDecl(compAlloc, sortInt)
-	return sLt(term, vc.hgetScalar(h, compAlloc))
+	return sLe(sAdd(term, sNum(objStride)), vc.hgetScalar(h, compAlloc))
+}
+
+// knownRefT: a pointer to a (sub)object of type t lies, with its whole
+// extent, below the allocation counter.
+func (vc *VC) knownRefT(h *Heap, term string, t types.Type) string {
+	vc.compDecl(compAlloc, sortInt)
+	size := int64(1)
+	if p, ok := t.Underlying().(*types.Pointer); ok {
+		size = structSize(p.Elem())
+	}
+	return sLe(sAdd(term, sNum(size)), vc.hgetScalar(h, compAlloc))
 }
 
 // typeFacts returns the assumptions that hold for any value of Go type t
@@ -217,13 +270,16 @@ func (vc *VC) typeFacts(h *Heap, v Val) string {
 	case KInt:
 		return rangeFact(v.T, v.Typ)
 	case KRef:
-		return vc.knownRef(h, v.T)
+		if v.Typ == nil {
+			return vc.knownRefT(h, v.T, types.Typ[types.Int])
+		}
+		return vc.knownRefT(h, v.T, v.Typ)
 	case KPtr:
 		if v.T != "" {
-			return vc.knownRef(h, v.T)
+			return vc.knownRefT(h, v.T, types.Typ[types.Int])
 		}
 	case KSlice:
-		return sAnd(vc.knownRef(h, "(s-arr "+v.T+")"),
+		return sAnd(vc.knownRefT(h, "(s-arr "+v.T+")", types.Typ[types.Int]),
 			sLe("0", "(s-off "+v.T+")"), sLe("0", "(s-len "+v.T+")"),
 			sLe("(s-len "+v.T+")", "(s-cap "+v.T+")"),
 			sLe(sAdd("(s-off "+v.T+")", "(s-cap "+v.T+")"), maxLenStr),
